@@ -48,6 +48,9 @@ def parse_ev(toks):
     if len(toks) < 3:
         return None
     a, b, c, rest = toks[0], toks[1], toks[2], toks[3:]
+    pos = None
+    if rest and rest[0][0] == '' and rest[0][1] is not None:      # a positional UTC time
+        pos, rest = rest[0][1], rest[1:]
 
     def plain(t):
         return t[1] is None and '=' not in t[0] and t[0] != ''
@@ -61,40 +64,106 @@ def parse_ev(toks):
     gmt = [t[1] for t in rest if t[0] == 'EXPIRES=' and t[1] is not None]
     addr = None if b[0] == '<error>' else b[0]
     if c[1] is None:
-        if c[0] == 'NEVER' and not gmt:
+        if c[0] == 'NEVER' and not gmt and pos is None:
             return (a[0], addr, None)
         return None
     if c[0] != '':
         return None
     if len(gmt) == 0:
+        if pos is not None:
+            return (a[0], addr, pos)
         return (a[0], addr, c[1]) if not rest else None
     if len(gmt) == 1:
         return (a[0], addr, gmt[0])
     return None
 
 
+PASSIVE = {'added': [], 'expired': []}
+
+
+def beh_of(op):
+    return op[2] if len(op) > 2 and op[2] else PASSIVE
+
+
 class SpecState:
+    """mirror of sst / spec_step of Spec/C20.v"""
     def __init__(self):
         self.now = 0
         self.map = {}        # name -> (ip, exp or None)
+        self.names = []
+        self.lst = []        # (lid, beh)
 
     def stale(self):
         return any(e is not None and e <= self.now for (_, e) in self.map.values())
+
+    def due_names(self, now):
+        return [n for n in self.names if n in self.map and self.map[n][1] is not None and self.map[n][1] <= now]
+
+    def ev_kind(self, v):
+        n, a, _ = v
+        if a is None:
+            return 'expired' if n in self.map else None
+        return None if n in self.map else 'added'
+
+    def ev_step(self, v):
+        n, a, e = v
+        if n not in self.names:
+            self.names.append(n)
+        if a is None:
+            self.map.pop(n, None)
+        else:
+            self.map[n] = (a, e)
+
+    def script_step(self, n, acts):
+        for a in acts:
+            if a[0] == 'raise':
+                return
+            if a[0] == 'feed':
+                e = None if a[2] is None else (self.now // TICK + a[2]) * TICK
+                self.ev_step((n, None if a[1] == '<error>' else a[1], e))
+
+    def note_step(self, kind, n):
+        for (_, b) in self.lst:
+            self.script_step(n, b[kind])
+
+    def lst_lookup(self, kind):
+        return any(a[0] in ('fname', 'fkey') for (_, b) in self.lst for a in b[kind])
+
+    def flags_op(self, op):
+        """stale_lookup_op of the operation in this state"""
+        if op[0] == 'find':
+            return self.stale()
+        if op[0] == 'ev':
+            v = parse_ev(op[1])
+            k = self.ev_kind(v) if v is not None else None
+            if k is None:
+                return False
+            n, a, e = v
+            others = any(x is not None and x <= self.now for (m, (_, x)) in self.map.items() if m != n)
+            mine = a is not None and e is not None and e <= self.now
+            return self.lst_lookup(k) and (others or mine)
+        if op[0] == 'adv':
+            due = self.due_names(self.now + op[1])
+            return self.lst_lookup('expired') and len(due) >= 2
+        return False
 
     def step(self, op):
         if op[0] == 'ev':
             v = parse_ev(op[1])
             if v is None:
                 return
-            n, a, e = v
-            if a is None:
-                self.map.pop(n, None)
-            else:
-                self.map[n] = (a, e)
+            k = self.ev_kind(v)
+            self.ev_step(v)
+            if k is not None:
+                self.note_step(k, v[0])
         elif op[0] == 'adv':
             self.now += op[1]
-            for n in [n for n, (_, e) in self.map.items() if e is not None and e <= self.now]:
-                del self.map[n]
+            for n in self.due_names(self.now):
+                self.map.pop(n, None)
+                self.note_step('expired', n)
+        elif op[0] == 'addl':
+            if op[1] not in [l for (l, _) in self.lst]:
+                self.lst.append((op[1], beh_of(op)))
 
 
 def flags_of(ops):
@@ -108,9 +177,12 @@ def flags_of(ops):
             if v is not None:
                 names.add(v[0])
                 addrs.add('<error>' if v[1] is None else v[1])
-        elif op[0] == 'find':
-            if s.stale():
-                stale = True
+        elif op[0] == 'addl':
+            b = beh_of(op)
+            for a in b['added'] + b['expired']:
+                if a[0] == 'feed':
+                    addrs.add(a[1])
+        stale = stale or s.flags_op(op)
         s.step(op)
     return bool(names & addrs), stale
 
@@ -120,6 +192,9 @@ ADDRS = ['10.0.0.1', '10.0.0.2', '192.0.2.7', '2001:db8::1', 'fe80::1', 'm.examp
 OFFS = [-3 * DAY, -3600 * S, -10 * S, -S, 0, S, 2 * S, 5 * S, 10 * S, 59 * S, 60 * S, 61 * S, 3600 * S,
         DAY - S, DAY, DAY + S, 2 * DAY, 2 * DAY + 5 * S, 7 * DAY, 30 * DAY, 400 * DAY]
 TZS = [0, 0, 2 * 3600 * S, -5 * 3600 * S, 19800 * S]
+# Tor's local zone against UTC: whole and fractional hours, both directions
+TZS_NZ = [3600 * S, -3600 * S, 2 * 3600 * S, -5 * 3600 * S, 19800 * S, -12600 * S, 20700 * S, 1800 * S, -1800 * S,
+          12 * 3600 * S, -11 * 3600 * S, 14 * 3600 * S, 45 * 60 * S, -9 * 3600 * S - 1800 * S]
 
 
 class P(core.Prop):
@@ -131,22 +206,31 @@ class P(core.Prop):
     thorough_n = 24000
     shard = 250
     design_ref = '5/C20'
-    rule = ('histories of 4..28 operations over 3 of 5 names and 6 addresses: ADDRMAP lines in the forms '
-            '`n a "L" EXPIRES="G" [CACHED=..] [KEY=v]`, `n a "L"`, `n a NEVER [CACHED=..]`, '
-            '`n <error> "L" error=yes EXPIRES="G"`, local time offset from GMT by 0/+2h/-5h/+5:30; expiry offsets '
-            '-3 days..+400 days incl. 1 s either side of 24 h, updates that shorten, lengthen, go to/from NEVER; '
+    rule = ('histories of 4..28 operations over 3 of 5 names and 6 addresses: ADDRMAP lines in every form the '
+            'control-spec allows: `n a "L" EXPIRES="G" [CACHED=..] [KEY=v]`, the all-positional `n a "L" "G" [CACHED=..]` '
+            '(18% of the events; L differs from G in 90% of them), `n a "L"`, `n a NEVER [CACHED=..]`, '
+            '`n <error> "L" error=yes EXPIRES="G"`, `n <error> "L" "G" error=yes`; the local-time field is plain text '
+            'offset from the UTC field by 0, +-1 h, +2 h, -5 h, +-0:30, +0:45, +5:30, +5:45, -3:30, -9:30, +12 h, -11 h, +14 h; '
+            'expiry offsets -3 days..+400 days incl. 1 s either side of 24 h, updates that shorten, lengthen, go to/from NEVER; '
             'clock advances that land exactly on / one tick before / after pending expiries, 0, fractions of a '
-            'second, days; lookups by name and by address; listeners added at any point (duplicates included); '
-            'lines delivered to a bare AddrMap or through TorState (address-mappings/all at bootstrap, then 650 '
-            'ADDRMAP events on a real TorControlProtocol). 70% of the cases avoid the two open finding classes. '
+            'second, days; lookups by name and by address; listeners added at any point (duplicates included), 60% of '
+            'the direct cases with ACTIVE listeners: scripts run inside addrmap_added / addrmap_expired that look the '
+            'callback\'s name or any key up (results observed), feed the map a newer mapping for the same name (address or '
+            '<error>, NEVER or 1 s..2 days ahead) and/or raise; lines delivered to a bare AddrMap or through TorState '
+            '(address-mappings/all at bootstrap, then 650 ADDRMAP events on a real TorControlProtocol). 70% of the cases '
+            'avoid the two open finding classes. '
             'non-trivial = at least 2 events, 1 advance that fires an expiry or an update of a held name, and 1 lookup; '
             'distinct = distinct case')
     trusted = ["twisted.internet.task.Clock; txtorcon.addrmap's `datetime` is replaced by a shim whose utcnow() "
                "follows the fake clock (1/8 s ticks, exact floats)",
                "Python's strftime/strptime/shlex.split (time stamps travel as tick numbers, lines as token lists)",
-               "via=state: TorControlProtocol on a StringTransport scripted through bootstrap as test_torstate does"]
+               "via=state: TorControlProtocol on a StringTransport scripted through bootstrap as test_torstate does",
+               "the harness's Listener class (runs its script only in callbacks made while no script is running; "
+               "records nested calls as ESub)"]
     assumptions = ['TZ=UTC', 'names, addresses and keywords are ASCII, addresses in canonical text form',
-                   'listeners do not call back into the map and do not raise',
+                   'a listener feeds only from inside addrmap_expired, only a mapping for the name of the callback, never one '
+                   'that is already expired; it does not register listeners and does not touch the clock',
+                   'active listeners only on a bare AddrMap (via=direct)',
                    'nothing else schedules calls on the clock']
 
     # ------------------------------------------------------------------ implementation
@@ -174,16 +258,69 @@ class P(core.Prop):
         def sip(ip):
             return str(ip)
 
+        class Boom(Exception):
+            "what a listener's script raises (recorded by the listener itself)"
+
+        depth = [0]           # > 0 while some listener's script is running
+        amref = [None]
+
+        def lookup(key):
+            try:
+                a = amref[0].find(key)
+                e = a.expires
+                if e is not None:
+                    d = e - BASE
+                    us = (d.days * 86400 + d.seconds) * 1000000 + d.microseconds
+                    assert us % (1000000 // TICK) == 0
+                    e = us // (1000000 // TICK)
+                return ['found', a.name, sip(a.ip), e]
+            except KeyError:
+                return ['notfound']
+            except Exception:
+                return ['raised']
+
+        def record(e):
+            cur.append(e if depth[0] == 0 else ['sub', e])
+
         @implementer(IAddrListener)
         class Listener(object):
-            def __init__(self, lid):
+            def __init__(self, lid, beh=None):
                 self.lid = lid
+                self.beh = beh or PASSIVE
+
+            def _script(self, name, acts):
+                # acts only in callbacks made while no script is running
+                if depth[0] > 0 or not acts:
+                    return
+                depth[0] += 1
+                try:
+                    for a in acts:
+                        if a[0] == 'fname':
+                            cur.append(['sub', lookup(name)])
+                        elif a[0] == 'fkey':
+                            cur.append(['sub', lookup(a[1])])
+                        elif a[0] == 'feed':
+                            if a[2] is None:
+                                line = '%s %s NEVER' % (name, a[1])
+                            else:
+                                g = timestr((ticks[0] // TICK + a[2]) * TICK)
+                                line = '%s %s "%s" EXPIRES="%s"' % (name, a[1], g, g)
+                            amref[0].update(line)
+                        elif a[0] == 'raise':
+                            cur.append(['sub', ['raised']])
+                            raise Boom()
+                        else:
+                            raise ValueError(a)
+                finally:
+                    depth[0] -= 1
 
             def addrmap_added(self, addr):
-                cur.append(['added', self.lid, addr.name, sip(addr.ip)])
+                record(['added', self.lid, addr.name, sip(addr.ip)])
+                self._script(addr.name, self.beh['added'])
 
             def addrmap_expired(self, name):
-                cur.append(['expired', self.lid, name])
+                record(['expired', self.lid, name])
+                self._script(name, self.beh['expired'])
 
         listeners = {}
         saved = am_mod.datetime
@@ -195,10 +332,11 @@ class P(core.Prop):
             if case['via'] == 'direct':
                 am = am_mod.AddrMap()
                 am.scheduler = IReactorTime(clock)
+                amref[0] = am
                 feed = None
                 start = 0
             else:
-                am, feed, chunks_boot = self._boot_state(case, clock, cur, listeners, Listener)
+                am, feed, chunks_boot = self._boot_state(case, clock, cur, listeners, Listener, amref)
                 chunks.extend(chunks_boot)
                 start = len(chunks_boot)
             for op in ops[start:]:
@@ -211,31 +349,29 @@ class P(core.Prop):
                             am.update(line)
                         else:
                             feed(line)
+                    except Boom:
+                        pass
                     except Exception:
                         cur.append(['raised'])
                 elif k == 'adv':
                     ticks[0] += op[1]
-                    try:
-                        clock.advance(op[1] / float(TICK))
-                    except Exception:
-                        cur.append(['raised'])
+                    amount = op[1] / float(TICK)
+                    while True:
+                        # (AddrMap.notify logs what a listener raises; should one escape all the same, the
+                        # reactor would log it and go on with the next call)
+                        try:
+                            clock.advance(amount)
+                            break
+                        except Boom:
+                            amount = 0
+                        except Exception:
+                            cur.append(['raised'])
+                            break
                 elif k == 'find':
-                    try:
-                        a = am.find(op[1])
-                        e = a.expires
-                        if e is not None:
-                            d = e - BASE
-                            us = (d.days * 86400 + d.seconds) * 1000000 + d.microseconds
-                            assert us % (1000000 // TICK) == 0
-                            e = us // (1000000 // TICK)
-                        cur.append(['found', a.name, sip(a.ip), e])
-                    except KeyError:
-                        cur.append(['notfound'])
-                    except Exception:
-                        cur.append(['raised'])
+                    cur.append(lookup(op[1]))
                 elif k == 'addl':
                     if op[1] not in listeners:
-                        listeners[op[1]] = Listener(op[1])
+                        listeners[op[1]] = Listener(op[1], beh_of(op))
                     am.add_listener(listeners[op[1]])
                 else:
                     raise ValueError(op)
@@ -244,7 +380,7 @@ class P(core.Prop):
         finally:
             am_mod.datetime = saved
 
-    def _boot_state(self, case, clock, cur, listeners, Listener):
+    def _boot_state(self, case, clock, cur, listeners, Listener, amref):
         """TorState on a real TorControlProtocol; the leading ops (addl / the first `boot` ev ops) happen
         before and inside _bootstrap (address-mappings/all); later events arrive as 650 ADDRMAP lines."""
         from twisted.test import proto_helpers
@@ -255,6 +391,7 @@ class P(core.Prop):
         protocol.makeConnection(proto_helpers.StringTransport())
         am = state.addrmap
         am.scheduler = clock
+        amref[0] = am
         marks = []
         orig = am.update
 
@@ -274,7 +411,7 @@ class P(core.Prop):
             op = ops[nlead]
             if op[0] == 'addl':
                 if op[1] not in listeners:
-                    listeners[op[1]] = Listener(op[1])
+                    listeners[op[1]] = Listener(op[1], beh_of(op))
                 am.add_listener(listeners[op[1]])
                 lead_kinds.append('addl')
             else:
@@ -344,11 +481,26 @@ class P(core.Prop):
             return C('OAdvance', N(op[1]))
         if k == 'find':
             return C('OFind', B(op[1].encode('ascii')))
-        return C('OAddL', N(op[1]))
+        b = beh_of(op)
+        return C('OAddL', N(op[1]), Rec(b_added=L(P._act(a) for a in b['added']),
+                                        b_expired=L(P._act(a) for a in b['expired'])))
+
+    @staticmethod
+    def _act(a):
+        if a[0] == 'fname':
+            return 'AFindName'
+        if a[0] == 'fkey':
+            return C('AFindKey', B(a[1].encode('ascii')))
+        if a[0] == 'feed':
+            return C('AFeed', B(a[1].encode('ascii')), 'FNever' if a[2] is None else C('FIn', N(a[2])))
+        assert a[0] == 'raise', a
+        return 'ARaise'
 
     @staticmethod
     def _ev(e):
         k = e[0]
+        if k == 'sub':
+            return C('ESub', P._ev(e[1]))
         if k == 'found':
             return C('EFound', B(e[1].encode('latin-1', 'replace')), B(e[2].encode('latin-1', 'replace')),
                      Opt(None if e[3] is None else Zt(e[3])))
@@ -364,13 +516,23 @@ class P(core.Prop):
         f = flags_of(case['ops'])
         return Rec(k_ops=L(self._op(o) for o in case['ops']),
                    k_obs=L(L(self._ev(e) for e in ch) for ch in obs['chunks']),
-                   k_flags=Pair(Bool(f[0]), Bool(f[1])))
+                   k_flags=L(Bool(x) for x in f))
 
     # ------------------------------------------------------------------ classification
     def kind(self, case, obs):
         f = flags_of(case['ops'])
         tag = ''.join(c for c, b in zip('KS', f) if b) or 'clean'
-        return '%s/%s' % (case['via'], tag)
+        acts = [a[0] for o in case['ops'] if o[0] == 'addl' for a in beh_of(o)['added'] + beh_of(o)['expired']]
+        forms = set()
+        for o in case['ops']:
+            if o[0] == 'ev' and len(o[1]) > 3 and o[1][3][0] == '' and o[1][3][1] is not None:
+                forms.add('pos4' if o[1][2][1] != o[1][3][1] else 'pos4eq')
+        extra = ''
+        if acts:
+            extra += '+act' + ('F' if 'feed' in acts else '') + ('R' if 'raise' in acts else '')
+        if 'pos4' in forms:
+            extra += '+pos4'
+        return '%s/%s%s' % (case['via'], tag, extra)
 
     def nontrivial(self, case, obs):
         ops = case['ops']
@@ -400,10 +562,12 @@ class P(core.Prop):
         held = n in s.map
         if r < 0.16:
             kind = 'error'
-        elif r < 0.34:
+        elif r < 0.32:
             kind = 'never'
-        elif r < 0.44:
+        elif r < 0.40:
             kind = 'local3'
+        elif r < 0.58:
+            kind = 'pos4'
         else:
             kind = 'gmt'
         # expiry: relative to now; prefer relations to the name's current expiry
@@ -413,7 +577,7 @@ class P(core.Prop):
         g = s.now - (s.now % TICK) + off
         if held and s.map[n][1] is not None and rng.random() < 0.3:
             g = s.map[n][1] + rng.choice([-DAY, -10 * S, -S, S, 10 * S, DAY, 2 * DAY])
-        tz = rng.choice(TZS)
+        tz = rng.choice(TZS + TZS_NZ)
         cached = rng.choice([None, None, ['CACHED=YES', None, True], ['CACHED=NO', None, True], ['CACHED=NO', None]])
         extra = rng.choice([None, None, None, ['STREAMID=12', None], ['FOO=bar', None],
                             ['WHEN=', g + DAY]])
@@ -425,9 +589,23 @@ class P(core.Prop):
                 toks.append(extra)
         elif kind == 'local3':
             toks = [[n, None], [a, None], ['', g]]
+        elif kind == 'pos4':
+            # all-positional form: local time, then the UTC time; Tor's zone is hardly ever UTC
+            if rng.random() < 0.9:
+                tz = rng.choice(TZS_NZ)
+            toks = [[n, None], [a, None], ['', g + tz], ['', g]]
+            if cached:
+                toks.append(cached)
+            if extra and rng.random() < 0.4:
+                toks.append(extra)
+            if rng.random() < 0.08:
+                toks.append(['EXPIRES=', g + rng.choice([-3600 * S, -S, 0, S, 60 * S, DAY])])
         elif kind == 'error':
-            if rng.random() < 0.2:
+            r2 = rng.random()
+            if r2 < 0.2:
                 toks = [[n, None], ['<error>', None], ['NEVER', None], ['error=yes', None]]
+            elif r2 < 0.3:
+                toks = [[n, None], ['<error>', None], ['', g + rng.choice(TZS_NZ)], ['', g], ['error=yes', None]]
             else:
                 toks = [[n, None], ['<error>', None], ['', g + tz], ['error=yes', None], ['EXPIRES=', g]]
             if rng.random() < 0.6:
@@ -459,6 +637,31 @@ class P(core.Prop):
             return ['adv', rng.choice([S, 5 * S, 10 * S, 60 * S, 3600 * S, rng.randrange(1, 100000)])]
         return ['adv', rng.choice([DAY, DAY + S, 2 * DAY, 30 * DAY, 400 * DAY])]
 
+    def _beh(self, rng, names, addrs, collide, may_raise):
+        """what a listener does inside its callbacks"""
+        keys = names + addrs + ['nosuch.example']
+        ips = list(addrs) + (list(names) if collide else [])
+
+        def look():
+            return ['fname'] if rng.random() < 0.5 else ['fkey', rng.choice(keys)]
+        added = [look() for _ in range(rng.choice([0, 0, 1, 1, 2]))]
+        expired = []
+        for _ in range(rng.choice([0, 1, 1, 2, 2, 3])):
+            r = rng.random()
+            if r < 0.55:
+                expired.append(look())
+            else:
+                ip = '<error>' if rng.random() < 0.12 else rng.choice(ips)
+                secs = rng.choice([None, 1, 1, 2, 5, 10, 20, 60, 3600, 86400, 2 * 86400 + 5])
+                expired.append(['feed', ip, secs])
+        if may_raise:
+            r = rng.random()
+            if r < 0.5:
+                expired.insert(rng.randrange(0, len(expired) + 1), ['raise'])
+            if r > 0.35:
+                added.insert(rng.randrange(0, len(added) + 1), ['raise'])
+        return {'added': added, 'expired': expired}
+
     def _case(self, rng):
         clean = rng.random() < 0.7
         collide = (not clean) and rng.random() < 0.35
@@ -471,46 +674,64 @@ class P(core.Prop):
         lids = list(range(1, nl + 1))
         nops = rng.randrange(4, 22)
         boot = 0
+        # active listeners (scripts) only on the bare AddrMap
+        active = via == 'direct' and rng.random() < 0.6
+        behs = {}
+        raiser = None
+        if active and lids and rng.random() < 0.3:
+            raiser = rng.choice(lids)
+        for l in lids + [4]:
+            if active and (rng.random() < 0.7 or l == raiser):
+                behs[l] = self._beh(rng, names, addrs, collide, l == raiser)
+
+        def addl(l):
+            return ['addl', l, behs[l]] if l in behs else ['addl', l]
+
+        def push(op):
+            """append unless the case is to stay outside the stale-lookup finding class"""
+            if clean and s.flags_op(op):
+                return False
+            ops.append(op)
+            s.step(op)
+            return True
         # listeners mostly first
         for l in lids:
             if rng.random() < 0.75:
-                ops.append(['addl', l])
+                push(addl(l))
+        late = lids + [1, 4]
         if via == 'state':
             boot = rng.choice([0, 1, 1, 2, 3])
             for _ in range(boot):
-                op = self._event(rng, s, names, addrs, clean, collide)
-                ops.append(op)
-                s.step(op)
+                push(self._event(rng, s, names, addrs, clean, collide))
+            boot = sum(1 for o in ops if o[0] == 'ev')
         for _ in range(nops):
-            r = rng.random()
-            if r < 0.42:
-                op = self._event(rng, s, names, addrs, clean, collide)
-            elif r < 0.67:
-                op = self._advance(rng, s)
-            elif r < 0.95:
-                if clean and s.stale():
-                    op = ['adv', rng.choice([0, 0, 1, S])]
+            for _try in range(6):
+                r = rng.random()
+                if r < 0.42:
+                    op = self._event(rng, s, names, addrs, clean, collide)
+                elif r < 0.67:
+                    op = self._advance(rng, s)
+                elif r < 0.95:
+                    if clean and s.stale():
+                        op = ['adv', rng.choice([0, 0, 1, S])]
+                    else:
+                        keys = names + addrs + ['<error>', 'nosuch.example']
+                        op = ['find', rng.choice(keys)]
                 else:
-                    keys = names + addrs + ['<error>', 'nosuch.example']
-                    op = ['find', rng.choice(keys)]
-            else:
-                op = ['addl', rng.choice(lids + [1, 4])]
-            ops.append(op)
-            s.step(op)
+                    op = addl(rng.choice(late)) if late else ['adv', 0]
+                if push(op):
+                    break
         # final sweep: look every key up, let everything expire, look again
         if rng.random() < 0.75:
+            ok = True
             if clean and s.stale():
-                op = ['adv', 0]
-                ops.append(op)
-                s.step(op)
-            for k in names + addrs:
-                ops.append(['find', k])
-            if rng.random() < 0.5:
-                op = ['adv', rng.choice([DAY, 3 * DAY, 401 * DAY])]
-                ops.append(op)
-                s.step(op)
+                ok = push(['adv', 0])
+            if ok:
                 for k in names + addrs:
-                    ops.append(['find', k])
+                    push(['find', k])
+                if rng.random() < 0.5 and push(['adv', rng.choice([DAY, 3 * DAY, 401 * DAY])]):
+                    for k in names + addrs:
+                        push(['find', k])
         case = {'via': via, 'boot': boot, 'ops': ops}
         if via == 'state' and boot == 1 and rng.random() < 0.5:
             case['boot_single'] = True
@@ -558,6 +779,14 @@ class P(core.Prop):
                     yield dict(case, ops=ops[:i] + [['ev', op[1][:j] + op[1][j + 1:]]] + ops[i + 1:])
             if op[0] == 'adv' and op[1] > 8:
                 yield dict(case, ops=ops[:i] + [['adv', op[1] // 2 - (op[1] // 2) % 8]] + ops[i + 1:])
+            if op[0] == 'addl' and len(op) > 2 and op[2]:
+                # a passive listener, then the scripts one action shorter
+                yield dict(case, ops=ops[:i] + [['addl', op[1]]] + ops[i + 1:])
+                for kd in ('added', 'expired'):
+                    for j in range(len(op[2][kd])):
+                        b = dict(op[2])
+                        b[kd] = op[2][kd][:j] + op[2][kd][j + 1:]
+                        yield dict(case, ops=ops[:i] + [['addl', op[1], b]] + ops[i + 1:])
 
     finding_preds = {
         'name_address_key_collision': lambda c, o: flags_of(c['ops'])[0],
